@@ -124,8 +124,8 @@ def gen_wi(seed, tier):
                 if I64MIN <= z <= I64MAX:
                     main.append("wi mkz %d %d" % (w, z))
                     main.append("wi fitsz %d %d" % (w, z))
-            for k in sorted({0, 1, 64 - w, 63 - w, (64 - w) // 2} - {-1}):
-                if k >= 0:
+            for k in sorted({0, 1, 64 - w, 63 - w, (64 - w) // 2}):
+                if 0 <= k <= 64 - w:
                     main.append("wi sext %d %d %d" % (w, a, k))
                     main.append("wi zext %d %d %d" % (w, a, k))
             for k in sorted({1, w - 1, w, w + 1, w // 2, 63, 64}):
@@ -315,3 +315,405 @@ def nontrivial(line, ans):
 
 def key(line):
     return " ".join(line.split()[:2])
+
+
+# ====================================================================== stage 2
+# wrapped intervals:  wv <op> <width> <A> [<B> | <k> | <n>]     A, B ::= bot | top | s:e
+
+WV_BIN = ["leq", "eq", "join", "meet", "widen", "narrow", "add", "sub", "mul", "sdiv", "udiv",
+          "srem", "urem", "shl", "lshr", "ashr", "and", "or", "xor", "trim"]
+WV_BIN_CORE = ["leq", "join", "meet", "widen", "add", "sub", "mul", "sdiv", "udiv", "shl", "lshr",
+               "ashr", "trim", "eq"]
+WV_BIN_ALIAS = ["ne", "div", "addeq", "subeq", "muleq", "diveq"]
+WV_UN = ["isbot", "istop", "issingleton", "neg", "toitv", "lowers", "loweru", "uppers", "upperu",
+         "write"]
+
+
+def wv_fmt(i):
+    return i if isinstance(i, str) else "%d:%d" % i
+
+
+def wv_all(w):
+    m = 2 ** w
+    return ["bot", "top"] + [(s, e) for s in range(m) for e in range(m)]
+
+
+def wv_is_top(i, w):
+    return i == "top" or (i != "bot" and (i[1] - i[0]) % (2 ** w) == 2 ** w - 1)
+
+
+def wv_rand(rng, w):
+    """random wrapped interval aimed at the poles"""
+    m = 2 ** w
+    k = rng.random()
+    if k < 0.03:
+        return "bot"
+    if k < 0.06:
+        return "top"
+    anchor = rng.choice([0, m - 1, 2 ** (w - 1), 2 ** (w - 1) - 1, rng.randrange(m), rng.randrange(m),
+                         rng.randrange(min(m, 64))])
+    s = (anchor + rng.randint(-6, 6)) % m
+    k = rng.random()
+    if k < 0.25:
+        ln = 0
+    elif k < 0.6:
+        ln = rng.randint(1, 12)
+    elif k < 0.7:
+        ln = m - 1 - rng.randint(0, 6)
+    elif k < 0.8:
+        ln = 2 ** (w - 1) + rng.randint(-3, 3)
+    else:
+        ln = rng.randrange(m)
+    ln %= m
+    return (s, (s + ln) % m)
+
+
+def wv_related(rng, w, a):
+    """an interval placed relative to the bounds of a: overlapping one end, both ends
+    (covering the complement), inside, around"""
+    m = 2 ** w
+    if a in ("bot", "top"):
+        return wv_rand(rng, w)
+    s, e = a
+    d1, d2 = rng.randint(0, 5), rng.randint(0, 5)
+    k = rng.randrange(6)
+    if k == 0: return ((e - d1) % m, (s + d2) % m)        # both ends, the long way round
+    if k == 1: return ((e + d1) % m, (s - d2) % m)        # the complement (or nearly)
+    if k == 2: return ((s + d1) % m, (e + d2) % m)        # overlaps the end
+    if k == 3: return ((s - d1) % m, (e - d2) % m)        # overlaps the start
+    if k == 4: return ((s - d1) % m, (e + d2) % m)        # around
+    return ((e + 1 + d1) % m, (e + 1 + d1 + d2) % m)      # just after
+
+
+def wv_shift_amount(rng, w):
+    m = 2 ** w
+    k = rng.choice([0, 1, 2, w - 1, w, w + 1, w // 2, rng.randrange(0, 64)])
+    k = min(k, 63) % m
+    return (k, k)
+
+
+def gen_wv(seed, tier):
+    rng = random.Random(seed + 1)
+    main, err = [], []
+    corpus = ["wv udiv 8 200:100 1:10", "wv udiv 8 200:100 1:1", "wv udiv 8 250:5 1:3", "wv shl 8 3:5 7:7",
+              "wv shl 8 3:3 8:8", "wv shl 3 1:1 3:3", "wv shl 8 3:5 9:9", "wv ashr 8 128:130 1:1",
+              "wv trunc 8 15:16 4", "wv trunc 64 0:18446744073709551615 63", "wv trunc 64 5:9 63",
+              "wv sext 8 100:200 8", "wv zext 8 200:100 8", "wv mul 8 100:120 2:3", "wv mul 8 250:5 250:5",
+              "wv mul 8 0:2 128:255", "wv mul 3 0:2 1:7", "wv mul 32 0:2 1:4294967295",
+              "wv sdiv 8 128:128 255:255", "wv sdiv 8 120:130 250:5", "wv widen 8 0:1 0:2",
+              "wv widen 64 0:1 0:2", "wv widen 34 0:1 0:2", "wv widen 35 0:100000 0:200000", "wv widen 8 3:5 5:3",
+              "wv widen 8 10:20 15:12", "wv widen 16 100:200 150:120",
+              "wv toitv 8 200:100", "wv toitv 8 100:200", "wv join 8 250:5 100:130", "wv meet 8 250:130 120:5"]
+    main += corpus
+    err += ["wv zext 8 top 8", "wv sext 8 top 8", "wv trunc 8 3:3 0", "wv widen 1 0:0 1:1",
+            "wv zext 60 1:2 5", "wv sext 64 1:2 1", "wv mkz 0 5", "wv slimit 65", "wv ulimit 0"]
+    # ---- exhaustive for small widths
+    for w in (1, 2, 3):
+        m = 2 ** w
+        allv = wv_all(w)
+        for a in allv:
+            for op in WV_UN + ["crosss", "crossu"]:
+                if op in ("crosss", "crossu") and (a == "bot" or wv_is_top(a, w)):
+                    continue
+                main.append("wv %s %d %s" % (op, w, wv_fmt(a)))
+            for n in range(m):
+                main.append("wv at %d %s %d" % (w, wv_fmt(a), n))
+            for k in (0, 1, 2, 5, 61, 64 - w):
+                if w + k <= 64 and not wv_is_top(a, w):
+                    main.append("wv zext %d %s %d" % (w, wv_fmt(a), k))
+                    main.append("wv sext %d %s %d" % (w, wv_fmt(a), k))
+            for k in range(1, w + 1):
+                main.append("wv trunc %d %s %d" % (w, wv_fmt(a), k))
+        pairs = [(a, b) for a in allv for b in allv]
+        for (a, b) in pairs:
+            if w < 3 or tier != "quick":
+                ops = WV_BIN + (WV_BIN_ALIAS if w == 2 else [])
+            else:
+                ops = WV_BIN_CORE + ([rng.choice(["srem", "urem", "and", "or", "xor", "narrow"] + WV_BIN_ALIAS)]
+                                     if rng.random() < 0.15 else [])
+            for op in ops:
+                l = "wv %s %d %s %s" % (op, w, wv_fmt(a), wv_fmt(b))
+                if w == 1 and op == "widen" and a in ((0, 0), (1, 1)) and b in ((0, 0), (1, 1)) and a != b:
+                    err.append(l)     # assert(w > 1) in operator||
+                    continue
+                main.append(l)
+    # ---- larger widths: pole-crossing and random
+    widths = [4, 5, 6, 7, 8, 16, 31, 32, 33, 34, 35, 63, 64]
+    nrand = 16000 if tier == "quick" else 300000
+    for _ in range(nrand):
+        w = rng.choice(widths + [rng.randint(4, 64)] * 4)
+        m = 2 ** w
+        a, b = wv_rand(rng, w), wv_rand(rng, w)
+        if rng.random() < 0.35:
+            b = wv_related(rng, w, a)
+        k = rng.random()
+        if k < 0.62:
+            op = rng.choice(WV_BIN_CORE + ["mul", "mul", "sdiv", "udiv", "join", "meet", "add", "sub", "widen"]
+                            + WV_BIN_ALIAS[:2])
+            if op in ("shl", "lshr", "ashr") and rng.random() < 0.85:
+                b = wv_shift_amount(rng, w)
+            if op in ("shl", "lshr", "ashr") and b not in ("bot", "top") and b[0] == b[1] and b[0] >= 64:
+                b = (b[0] % 64, b[0] % 64)
+            if op == "shl" and w == 64 and b not in ("bot", "top") and b == (0, 0):
+                b = (1, 1)        # Shl(0) at width 64 calls ashr(64): undefined behaviour
+            if op == "trim" and rng.random() < 0.8:
+                c = rng.choice([a[0], a[1], rng.randrange(m)]) if a not in ("bot", "top") else rng.randrange(m)
+                b = (c, c)
+            main.append("wv %s %d %s %s" % (op, w, wv_fmt(a), wv_fmt(b)))
+        elif k < 0.68:
+            main.append("wv %s %d %s %s" % (rng.choice(["srem", "urem", "and", "or", "xor", "narrow", "ne"]),
+                                            w, wv_fmt(a), wv_fmt(b)))
+        elif k < 0.78:
+            op = rng.choice(WV_UN + ["crosss", "crossu"])
+            if op in ("crosss", "crossu") and (a == "bot" or wv_is_top(a, w)):
+                op = "neg"
+            main.append("wv %s %d %s" % (op, w, wv_fmt(a)))
+        elif k < 0.86:
+            if a in ("bot", "top"):
+                n = rng.randrange(m)
+            else:
+                n = (rng.choice([a[0], a[1], 0, m - 1, 2 ** (w - 1)]) + rng.randint(-2, 2)) % m
+            main.append("wv at %d %s %d" % (w, wv_fmt(a), n))
+        elif k < 0.93:
+            op = rng.choice(["zext", "sext"])
+            if wv_is_top(a, w):
+                a = (0, 1) if w > 1 else (0, 0)
+            main.append("wv %s %d %s %d" % (op, w, wv_fmt(a), min(64 - w, rng.choice([0, 1, 64 - w, rng.randint(0, 64 - w)]))))
+        elif k < 0.98:
+            k = rng.choice([1, w, w - 1, w // 2, rng.randint(1, w)])
+            k = min(k, 63)        # Trunc(64) calls ashr(64): undefined behaviour
+            main.append("wv trunc %d %s %d" % (w, wv_fmt(a), k))
+        else:
+            z = rng.choice([rng.randint(I64MIN, I64MAX), rng.randint(-300, 300), 2 ** 63, -(2 ** 64)])
+            if rng.random() < 0.5:
+                main.append("wv mkz %d %d" % (w, z))
+            else:
+                z2 = z + rng.randrange(0, m)
+                main.append("wv mkzz %d %d %d" % (w, z, z2))
+    for w in (1, 8, 64):
+        main.append("wv slimit %d" % w)
+        main.append("wv ulimit %d" % w)
+        main.append("wv default %d" % w)
+    return main, err
+
+
+# ------------------------------------------------------------------ stage-2 oracle
+
+def wv_parse_case(s, w):
+    if s in ("bot", "top"):
+        return s
+    a, b = s.split(":")
+    m = 2 ** w
+    return (int(a) % m, int(b) % m)
+
+
+def wv_members(i, w, rng, limit=20):
+    """all members of a small interval, a sample aimed at the poles otherwise"""
+    m = 2 ** w
+    if i == "bot":
+        return []
+    if i == "top":
+        s, ln = 0, m - 1
+    else:
+        s, ln = i[0], (i[1] - i[0]) % m
+    if ln + 1 <= limit:
+        return [(s + d) % m for d in range(ln + 1)]
+    offs = {0, 1, 2, ln, ln - 1, ln - 2, ln // 2}
+    for p in (0, 1, m - 1, m - 2, 2 ** (w - 1), 2 ** (w - 1) - 1, 2 ** (w - 1) + 1):
+        d = (p - s) % m
+        if d <= ln:
+            offs.add(d)
+    while len(offs) < 16:
+        offs.add(rng.randint(0, ln))
+    return [(s + d) % m for d in sorted(offs)]
+
+
+_ANS = re.compile(r"^\[(\d+),(\d+)\]@(\d+)$")
+
+
+def wv_parse_answer(ans):
+    if ans == "_|_":
+        return "bot"
+    if ans == "top":
+        return "top"
+    mm = _ANS.match(ans)
+    if not mm:
+        return None
+    return (int(mm.group(1)), int(mm.group(2)), int(mm.group(3)))
+
+
+def wv_in(r, v, w):
+    """membership of the w-bit value v in a parsed answer"""
+    if r == "bot":
+        return False
+    if r == "top":
+        return True
+    s, e, rw = r
+    if rw != w:
+        return False
+    m = 2 ** w
+    return (v - s) % m <= (e - s) % m
+
+
+def wv_concrete(op, x, y, w):
+    """list of results of the bit-vector operation (empty if undefined)"""
+    m = 2 ** w
+    if op in ("add", "addeq"): return [(x + y) % m]
+    if op in ("sub", "subeq"): return [(x - y) % m]
+    if op in ("mul", "muleq"): return [(x * y) % m]
+    if op in ("sdiv", "div", "diveq"): return [tdiv(signed(x, w), signed(y, w)) % m] if y else []
+    if op == "udiv": return [x // y] if y else []
+    if op == "srem": return [trem(signed(x, w), signed(y, w)) % m] if y else []
+    if op == "urem": return [x % y] if y else []
+    if op == "and": return [x & y]
+    if op == "or": return [x | y]
+    if op == "xor": return [x ^ y]
+    if y >= 64: return []
+    if op == "shl": return [(x << y) % m]
+    if op == "lshr": return [x >> y]
+    if op == "ashr": return [(signed(x, w) >> y) % m]
+    return []
+
+
+def oracle_wv(line, ans, rng):
+    t = line.split()
+    op, w = t[1], int(t[2])
+    if ans in ("ABORT", "MISSING"):
+        return None          # aborts are compared with the model only
+    if w < 1 or w > 64:
+        return None
+    m = 2 ** w
+    if op == "mkz":
+        z = int(t[3])
+        r = wv_parse_answer(ans)
+        return None if wv_in(r, z % m, w) else "%s = %s does not contain %d mod 2^%d" % (line, ans, z, w)
+    if op == "mkzz":
+        lo, hi = int(t[3]), int(t[4])
+        r = wv_parse_answer(ans)
+        for z in {lo, hi, (lo + hi) // 2, lo + 1 if lo < hi else lo}:
+            if lo <= z <= hi and not wv_in(r, z % m, w):
+                return "%s = %s does not contain %d mod 2^%d" % (line, ans, z, w)
+        return None
+    if op in ("slimit", "ulimit", "default", "write", "crosss", "crossu"):
+        return None
+    a = wv_parse_case(t[3], w)
+    xs = wv_members(a, w, rng)
+    if op == "isbot":
+        return None if ans == ("true" if a == "bot" else "false") else "%s answered %s" % (line, ans)
+    if op == "istop":
+        return None if ans == ("true" if wv_is_top(a, w) else "false") else "%s answered %s" % (line, ans)
+    if op == "issingleton":
+        exp = a not in ("bot", "top") and a[0] == a[1] and not wv_is_top(a, w)
+        return None if ans == ("true" if exp else "false") else "%s answered %s" % (line, ans)
+    if op == "at":
+        n = int(t[4]) % m
+        if a == "bot": exp = False
+        elif wv_is_top(a, w): exp = True
+        else: exp = (n - a[0]) % m <= (a[1] - a[0]) % m
+        return None if ans == ("true" if exp else "false") else \
+            "%s: membership of %d answered %s" % (line, n, ans)
+    if op == "toitv":
+        if ans == "[-oo, +oo]":
+            return None
+        mm = re.match(r"^\[(-?\d+), (-?\d+)\]$", ans)
+        for x in xs:
+            sx = signed(x, w)
+            if mm is None or not (int(mm.group(1)) <= sx <= int(mm.group(2))):
+                return "%s = %s but the member %d (signed %d) is not in it" % (line, ans, x, sx)
+        return None
+    r = wv_parse_answer(ans)
+    if r is None and op not in ("leq", "eq", "ne"):
+        return "%s: unparsable answer %r" % (line, ans)
+    if op == "neg":
+        for x in xs:
+            if not wv_in(r, (-x) % m, w):
+                return "%s = %s but -(%d) = %d is not in it" % (line, ans, x, (-x) % m)
+        return None
+    if op in ("lowers", "loweru", "uppers", "upperu"):
+        sg = op.endswith("s")
+        lo, hi = (-(2 ** (w - 1)), 2 ** (w - 1) - 1) if sg else (0, m - 1)
+        for x in xs:
+            v = signed(x, w) if sg else x
+            cands = [v, lo, hi, v - 1, v + 1, (v + lo) // 2, (v + hi) // 2]
+            for c in cands:
+                if lo <= c <= hi and ((c <= v) if op.startswith("lower") else (c >= v)):
+                    if not wv_in(r, c % m, w):
+                        return "%s = %s but %d (%s %d, a member) is not in it" % (
+                            line, ans, c % m, "below" if op.startswith("lower") else "above", x)
+        return None
+    if op in ("zext", "sext", "trunc"):
+        k = int(t[4])
+        for x in xs:
+            if op == "zext": v, rw = x, w + k
+            elif op == "sext": v, rw = signed(x, w) % (2 ** (w + k)), w + k
+            else:
+                if k >= w: v, rw = x, w
+                else: v, rw = x % (2 ** k), k
+            if not wv_in(r, v, rw):
+                return "%s = %s but %s(%d) = %d at width %d is not in it" % (line, ans, op, x, v, rw)
+        return None
+    b = wv_parse_case(t[4], w)
+    ys = wv_members(b, w, rng)
+    if op in ("leq", "eq", "ne"):
+        if (op == "leq" and ans == "true") or (op == "eq" and ans == "true") or (op == "ne" and ans == "false"):
+            for x in xs:
+                if not wv_in_case(b, x, w):
+                    return "%s answered %s but %d is in the left operand only" % (line, ans, x)
+            if op != "leq":
+                for y in ys:
+                    if not wv_in_case(a, y, w):
+                        return "%s answered %s but %d is in the right operand only" % (line, ans, y)
+        return None
+    if op in ("join", "widen"):
+        for v in xs + ys:
+            if not wv_in(r, v, w):
+                return "%s = %s but %d is in an operand" % (line, ans, v)
+        return None
+    if op in ("meet", "narrow"):
+        for v in xs + ys:
+            if wv_in_case(a, v, w) and wv_in_case(b, v, w) and not wv_in(r, v, w):
+                return "%s = %s but %d is in both operands" % (line, ans, v)
+        return None
+    if op == "trim":
+        if b not in ("bot", "top") and b[0] == b[1] and not wv_is_top(b, w):
+            for x in xs:
+                if x != b[0] and not wv_in(r, x, w):
+                    return "%s = %s but %d (different from %d) is in the left operand" % (line, ans, x, b[0])
+        return None
+    for x in xs:
+        for y in ys:
+            for v in wv_concrete(op, x, y, w):
+                if not wv_in(r, v, w):
+                    return "%s = %s but %s(%d, %d) = %d (mod 2^%d) is not in it" % (line, ans, op, x, y, v, w)
+    return None
+
+
+def wv_in_case(i, v, w):
+    if i == "bot":
+        return False
+    if i == "top":
+        return True
+    m = 2 ** w
+    return (v - i[0]) % m <= (i[1] - i[0]) % m
+
+
+def oracle(line, ans, rng=None):
+    rng = rng or random.Random(1)
+    if line.startswith("wi "):
+        return oracle_wi(line, ans)
+    if line.startswith("wv "):
+        return oracle_wv(line, ans, rng)
+    return None
+
+
+def nontrivial(line, ans):
+    """wi: the case did not abort and an operand or the answer is different from 0;
+    wv: no operand is bottom and the answer is neither bottom, top nor an abort"""
+    t = line.split()
+    if ans in ("ABORT", "MISSING"):
+        return False
+    if t[0] == "wi":
+        return any(x not in ("0",) for x in t[3:]) or ans.split()[0] not in ("0", "false")
+    if "bot" in t[3:]:
+        return False
+    return ans not in ("_|_", "top")
